@@ -63,7 +63,7 @@ def worker(args):
                 sig = '%s|%s|rows-changed-without-commit' % (name.split('-')[0], kinds(hist))
                 sub.violation(sig, dict(model=name, fixture=fixture, history=hist, before=before, after=after),
                               'committed rows changed by %r (obs %r)' % (op, x.obs[-1]))
-    depth = 3 if tier != 'quick' and sx.deep_model(name) else 2
+    depth = 3 if tier != 'quick' and sx.deep_model(name, fixture) else 2
     ex.track_dumps = True
     ex.run(depth, visit, order=sx.seeded_order(seed), last_only=(lambda op: op[0] in COMMITS + ('rollback', 'raise')))
     env.close()
@@ -87,7 +87,7 @@ def run(ctx):
     ctx.guard('committing histories', ctx.counters.get('committing_histories', 0), 100)
     ctx.guard('commits that changed rows', ctx.counters.get('commits_that_changed_rows', 0), 50)
     ctx.cov['per_model'] = agg['per_model']
-    ctx.cov['bounds'] = ('all histories of 2 operations + an ending (commit/end/rollback/raise) from every fixture' if ctx.quick else 'all histories of 3 operations + an ending from every fixture for one model per relationship kind plus casc3 and mix3, of 2 operations + an ending for the option variants')
+    ctx.cov['bounds'] = ('all histories of 2 operations + an ending (commit/end/rollback/raise) from every fixture' if ctx.quick else 'all histories of 3 operations + an ending from every fixture for the plain one-to-many and many-to-many models from the populated fixture, of 2 operations + an ending for the option variants')
     ctx.assume('SQLite only; values restricted to the SX alphabets (ints {0,1}, strs {u1,u2}, two objects per entity + one creatable)')
     return dict(states=agg['states'], transitions=agg['transitions'], traces_validated_against_impl=agg['executions'])
 
